@@ -211,7 +211,7 @@ func (ex *Exec) libSummary(fr *Frame, st *State, fn *ssa.Function, args []Val, x
 				return ex.bigBytes(st, iv), true
 			}
 		}
-	case "reflect.DeepEqual":
+	case "reflect.DeepEqual", "bytes.Equal":
 		return one(ex.deepEqual(st, args[0], args[1]))
 	case "(*sync.RWMutex).Lock", "(*sync.RWMutex).Unlock", "(*sync.RWMutex).RLock", "(*sync.RWMutex).RUnlock", "(*sync.Mutex).Lock", "(*sync.Mutex).Unlock":
 		st.Events = append(st.Events, Event{Kind: "lock:" + fn.Name(), Pos: pos})
@@ -258,7 +258,7 @@ func (ex *Exec) libSummary(fr *Frame, st *State, fn *ssa.Function, args []Val, x
 	case "io.ReadAtLeast":
 		// fill-or-fail into the buffer: content unknown, err unknown; on nil error the buffer is full
 		if sl, ok := args[1].(*SliceV); ok && !sl.Unk && !sl.Nil {
-			if arr, ok := st.heap[sl.Obj].(*ArrayV); ok {
+			if arr, ok := ex.arrOf(st, sl); ok {
 				src := ex.syms.Fresh("in", 8, false).Name
 				ex.arrReplace(st, arr, st.TermOf(sl.Off), []Seg{{Run: &Run{Src: src, Off: constTerm(0), Len: st.TermOf(sl.Len)}}}, st.TermOf(sl.Len))
 			}
@@ -390,9 +390,9 @@ func (ex *Exec) readerReadNonEmpty(st *State, r *RdrV, buf *SliceV, remaining *I
 }
 
 func (ex *Exec) readerCopy(st *State, r *RdrV, buf *SliceV, n *IntV, pos string) callRes {
-	src := &SliceV{Obj: r.Src.Obj, Off: st.Arith(token.ADD, r.Src.Off, r.Pos, pos), Len: n, Cap: n}
+	src := &SliceV{Obj: r.Src.Obj, Path: r.Src.Path, Off: st.Arith(token.ADD, r.Src.Off, r.Pos, pos), Len: n, Cap: n}
 	segs, ok := ex.sliceSegs(st, src)
-	arr, ok2 := st.heap[buf.Obj].(*ArrayV)
+	arr, ok2 := ex.arrOf(st, buf)
 	if ok && ok2 {
 		if !ex.arrReplace(st, arr, st.TermOf(buf.Off), segs, st.TermOf(n)) {
 			ok = false
@@ -402,7 +402,7 @@ func (ex *Exec) readerCopy(st *State, r *RdrV, buf *SliceV, n *IntV, pos string)
 		fmt.Fprintf(os.Stderr, "readerCopy src off=%s len=%s ok=%v ok2=%v segs=%s\n", src.Off, src.Len, ok, ok2, arrayString(&ArrayV{Segs: segs}))
 	}
 	if (!ok || !ok2) && ok2 {
-		st.heap[buf.Obj] = &ArrayV{Elem: arr.Elem, Segs: []Seg{{Run: &Run{Src: ex.syms.Fresh("rd", 8, false).Name, Off: constTerm(0), Len: arrLen(arr)}}}}
+		ex.setArrOf(st, buf, &ArrayV{Elem: arr.Elem, Segs: []Seg{{Run: &Run{Src: ex.syms.Fresh("rd", 8, false).Name, Off: constTerm(0), Len: arrLen(arr)}}}})
 	}
 	// advance reader (the reader object lives in the heap; find and update)
 	for id, v := range st.heap {
@@ -467,7 +467,7 @@ func (ex *Exec) invokeSummary(st *State, m *types.Func, args []Val, resT types.T
 	case "Read":
 		if len(args) == 1 {
 			if sl, ok := args[0].(*SliceV); ok && !sl.Unk && !sl.Nil {
-				if arr, ok := st.heap[sl.Obj].(*ArrayV); ok {
+				if arr, ok := ex.arrOf(st, sl); ok {
 					// the buffer may be partially overwritten: unknown content
 					src := ex.syms.Fresh("in", 8, false).Name
 					ex.arrReplace(st, arr, st.TermOf(sl.Off), []Seg{{Run: &Run{Src: src, Off: constTerm(0), Len: st.TermOf(sl.Len)}}}, st.TermOf(sl.Len))
